@@ -17,6 +17,7 @@ DM = 'beartype/door/_cls/doormeta.py'
 CCH = 'beartype/_util/cache/utilcachecall.py'
 C3119 = 'beartype/_util/cls/pep/clspep3119.py'
 CONV = 'beartype/_check/convert/convmain.py'
+U484 = 'beartype/_util/hint/pep/proposal/pep484/pep484union.py'
 FLOOR_APPLIED = 10
 
 
@@ -77,6 +78,13 @@ VARIANTS = {
         'an annotation whose __ne__ raises or returns an array escapes @beartype as a bare ValueError (seeded C11-12)'),
     'is-hint-truth-tests-raw-hint': tseeded(HT, lambda t: _prepend(t, 'is_hint', 'if not hint:\n    return False'), 'C11.R12',
                                             'numpy.zeros(3) as annotation: bare ValueError from the truth test'),
+    # ---- R13: raw annotations reaching a typing factory -------------------------------------------------------------
+    'tuple-union-factory-unguarded': tseeded(U484, lambda t: replace_where(
+        t, lambda n: isinstance(n, ast.Try), lambda n: n.body, scope='make_hint_pep484_union'), 'C11.R13',
+        'the defect repaired by the fix commit (F24), reintroduced: is_bearable(0, (int, [1])) raises a bare TypeError'),
+    'n-tuple-union-factory-broad-handler': tneutral(U484, lambda t: replace_where(
+        t, lambda n: isinstance(n, ast.ExceptHandler) and n.type is not None and ast.unparse(n.type) == 'TypeError',
+        lambda n: (setattr(n, 'type', expr('Exception')) or n), scope='make_hint_pep484_union')),
     # ---- neutral ---------------------------------------------------------------------------------------------------
     'n-roundtrip-conftest': roundtrip(CT),
     'n-roundtrip-checkmake': roundtrip(CMK),
